@@ -51,7 +51,7 @@ func mkCase(d desc) Case {
 	p := res.Pattern(d.P)
 	var c Case
 	c.Desc = d
-	var validP, matches, vok, replM, ridS, partS, pathP, cex bool
+	var validP, matches, vok, replM, ridS, partS, pathP, cex, validS, pathS bool
 	var vals map[string]string
 	var repl, replTag string
 	idx := -1
@@ -66,6 +66,8 @@ func mkCase(d desc) Case {
 		replTag = string(p.ReplaceTag(d.Tag, d.Val))
 		idx = p.IndexWildcard()
 		ridS = res.IsValidRID(d.S)
+		validS = res.Pattern(d.S).IsValid()
+		pathS = res.VerifIsValidPath(d.S)
 		partS = res.VerifIsValidPart(d.S)
 		pathP = res.VerifIsValidPath(d.P)
 		t := store.IDTransformer(d.Tag, nil)
@@ -89,9 +91,9 @@ func mkCase(d desc) Case {
 	if pan {
 		c.Tags = append(c.Tags, "panic")
 	}
-	c.Term = fmt.Sprintf("PC %s %s %s %s %s %s %s %s %s %s %s %s %s %s %s %s",
+	c.Term = fmt.Sprintf("PC %s %s %s %s %s %s %s %s %s %s %s %s %s %s %s %s %s %s",
 		B(d.P), B(d.S), B(d.Tag), B(d.Val), Bool(validP), Bool(matches), OptAMap(vals, vok), B(repl), Bool(replM),
-		B(replTag), OptN(idx, idx >= 0), Bool(ridS), Bool(partS), Bool(pathP), OptB(idBack, idBackOK), Bool(cex))
+		B(replTag), OptN(idx, idx >= 0), Bool(ridS), Bool(partS), Bool(pathP), OptB(idBack, idBackOK), Bool(cex), Bool(validS), Bool(pathS))
 	// non-trivial: a special character occurs not at token start, or the name has an empty token,
 	// or (valid pattern with a wildcard and the name matches)
 	midSpecial := false
